@@ -91,21 +91,65 @@ impl<K: Eq, V: PartialEq> PartialEq for HashMap<K, V> {
     }
 }
 
-pub struct Entry<'a, K, V> {
+/// `std::collections::hash_map::Entry` (enum form, so that code matching on Occupied / Vacant
+/// compiles against the model as well)
+pub enum Entry<'a, K, V> {
+    Occupied(OccupiedEntry<'a, K, V>),
+    Vacant(VacantEntry<'a, K, V>),
+}
+
+pub struct OccupiedEntry<'a, K, V> {
+    map: &'a mut HashMap<K, V>,
+    index: usize,
+}
+
+pub struct VacantEntry<'a, K, V> {
     map: &'a mut HashMap<K, V>,
     key: K,
 }
 
-impl<'a, K: Eq, V> Entry<'a, K, V> {
+impl<'a, K, V> OccupiedEntry<'a, K, V> {
+    pub fn key(&self) -> &K {
+        &self.map.entries[self.index].0
+    }
+    pub fn get(&self) -> &V {
+        &self.map.entries[self.index].1
+    }
+    pub fn get_mut(&mut self) -> &mut V {
+        &mut self.map.entries[self.index].1
+    }
+    pub fn into_mut(self) -> &'a mut V {
+        &mut self.map.entries[self.index].1
+    }
+    pub fn insert(&mut self, value: V) -> V {
+        std::mem::replace(&mut self.map.entries[self.index].1, value)
+    }
+    pub fn remove(self) -> V {
+        let (k, v) = self.map.entries.swap_remove(self.index);
+        std::mem::forget(k);
+        v
+    }
+}
+
+impl<'a, K, V> VacantEntry<'a, K, V> {
+    pub fn key(&self) -> &K {
+        &self.key
+    }
+    pub fn into_key(self) -> K {
+        self.key
+    }
+    pub fn insert(self, value: V) -> &'a mut V {
+        self.map.entries.push((self.key, value));
+        let last = self.map.entries.len() - 1;
+        &mut self.map.entries[last].1
+    }
+}
+
+impl<'a, K, V> Entry<'a, K, V> {
     pub fn or_insert_with<F: FnOnce() -> V>(self, f: F) -> &'a mut V {
-        let pos = self.map.position(&self.key);
-        match pos {
-            Some(i) => &mut self.map.entries[i].1,
-            None => {
-                self.map.entries.push((self.key, f()));
-                let last = self.map.entries.len() - 1;
-                &mut self.map.entries[last].1
-            }
+        match self {
+            Entry::Occupied(e) => e.into_mut(),
+            Entry::Vacant(e) => e.insert(f()),
         }
     }
     pub fn or_insert(self, v: V) -> &'a mut V {
@@ -117,6 +161,30 @@ impl<'a, K: Eq, V> Entry<'a, K, V> {
     {
         self.or_insert_with(V::default)
     }
+    pub fn key(&self) -> &K {
+        match self {
+            Entry::Occupied(e) => e.key(),
+            Entry::Vacant(e) => e.key(),
+        }
+    }
+    pub fn and_modify<F: FnOnce(&mut V)>(mut self, f: F) -> Self {
+        if let Entry::Occupied(e) = &mut self {
+            f(e.get_mut());
+        }
+        self
+    }
+}
+
+pub mod hash_map {
+    pub use super::{Entry, HashMap, OccupiedEntry, VacantEntry};
+}
+
+pub mod btree_set {
+    pub use super::BTreeSet;
+}
+
+pub mod hash_set {
+    pub use super::HashSet;
 }
 
 impl<K, V> HashMap<K, V> {
@@ -229,7 +297,13 @@ impl<K: Eq, V> HashMap<K, V> {
         }
     }
     pub fn entry(&mut self, key: K) -> Entry<'_, K, V> {
-        Entry { map: self, key }
+        match self.position(&key) {
+            Some(index) => {
+                std::mem::forget(key);
+                Entry::Occupied(OccupiedEntry { map: self, index })
+            }
+            None => Entry::Vacant(VacantEntry { map: self, key }),
+        }
     }
     pub fn extend<I: IntoIterator<Item = (K, V)>>(&mut self, iter: I) {
         for (k, v) in iter {
